@@ -309,6 +309,146 @@ def move_round(n, rnd, rng):
     return cases, finished
 
 
+def same_uid_round(n, rnd, rng, concurrent):
+    """N clients store THEIR OWN data set under ONE SOP Instance UID into one directory-backed entity - at the same
+    time (barrier) or one after the other.  Every one of them must end up in its own readable file."""
+    import os
+    import shutil
+    import tempfile
+    d = tempfile.mkdtemp(prefix='c20dir_')
+    srv = pynetdicom2.StorageAE(d, 'SRV', 0, supported_ts=TSS, max_pdu_length=16384)
+    try:
+        srv.server_close()
+    except Exception:      # noqa
+        pass
+    srv.add_scp(sc.storage_scp)
+    srv.on_receive_store = lambda context, ds: statuses.SUCCESS
+    srv.timeout = 60
+    uid = '1.2.3.4.5.%d' % (7000 + rnd)
+    barrier = threading.Barrier(n)
+    lock = threading.Lock()
+    results = {}
+
+    def client(i):
+        name = 'C%02d' % i
+        cl = ae_mod.ClientAE(name, supported_ts=[TSS[i % 3]], max_pdu_length=[1024, 16384][i % 2]).add_scu(sc.storage_scu, [CT])
+        cl.timeout = 60
+        rec = {'client': name, 'aborted': False, 'error': '', 'negotiated': [], 'requests': [], 'extras': [],
+               'pdus': {'maxClient': 0, 'maxServer': 0, 'fromServer': [], 'fromClient': []}}
+        results[i] = rec
+        ds = make_ds(name, 7, CT, 40 + 20 * i)
+        ds.SOPInstanceUID = uid
+        try:
+            with cl.request_association({'aet': 'SRV', 'address': ADDR[0], 'port': ADDR[1]}) as assoc:
+                try:
+                    barrier.wait(60)
+                except threading.BrokenBarrierError:
+                    pass
+                if concurrent:
+                    st = assoc.get_scu(CT)(ds, 1)
+                else:
+                    with lock:
+                        st = assoc.get_scu(CT)(ds, 1)
+                if int(st) != 0:
+                    rec['extras'].append('store answered with status %#x' % int(st))
+        except Exception as exc:      # noqa
+            rec['error'] = '%s: %s' % (type(exc).__name__, exc)
+    try:
+        with R.Net() as net:
+            net.register(ADDR, srv)
+            ths = [threading.Thread(target=client, args=(i,), daemon=True) for i in range(n)]
+            for t in ths:
+                t.start()
+            for t in ths:
+                t.join(120)
+            finished = all(not t.is_alive() for t in ths)
+            net.wait_all(60)
+            NETS.append(net)
+        seen = []
+        for f in sorted(os.listdir(d)):
+            try:
+                seen.append({'client': str(pydicom.dcmread(os.path.join(d, f)).PatientID), 'inst': uid})
+            except Exception:      # noqa
+                seen.append({'client': 'unreadable:' + f, 'inst': uid})
+    finally:
+        shutil.rmtree(d, ignore_errors=True)
+    cases = [{'kind': 'assoc', 'a': rec} for _, rec in sorted(results.items())]
+    expected = [{'client': 'C%02d' % i, 'inst': uid} for i in range(n)]
+    cases.append({'kind': 'global', 'g': {'sent': expected, 'allSent': expected, 'seen': seen, 'threads': []}})
+    return cases, finished
+
+
+def commitment_round(n, rnd, rng):
+    """N requesting entities (each also a provider for the reports) ask ONE archive for storage commitment, two requests
+    back to back on the same association; the archive answers each on its own association and reports to each
+    requester on a new association to THAT requester."""
+    COMMIT = sc.STORAGE_COMMITMENT_SOP_CLASS
+
+    class Node(ae_mod.AE):
+        def __init__(self, title, addr):
+            super(Node, self).__init__(title, 0, supported_ts=TSS, max_pdu_length=16384, bind_and_activate=False)
+            self.addr = addr
+            self.reports = []
+            self.lock = threading.Lock()
+            self.timeout = 30
+            self.directory = {}
+
+        def on_commitment_request(self, remote_ae, uids):
+            who = remote_ae.decode() if isinstance(remote_ae, bytes) else str(remote_ae)
+            return self.directory[who.strip()], list(uids), None
+
+        def on_commitment_response(self, transaction_uid, success, failure):
+            with self.lock:
+                self.reports.append((str(transaction_uid), [tuple(map(str, x)) for x in success]))
+    archive = Node('SRV', ADDR)
+    archive.add_scp(sc.StorageCommitment()).add_scu(sc.storage_commitment_scu)
+    clients = []
+    for i in range(n):
+        c = Node('C%02d' % i, ('client%d.example' % i, 104))
+        c.add_scp(sc.StorageCommitment()).add_scu(sc.storage_commitment_scu)
+        archive.directory['C%02d' % i] = {'aet': 'C%02d' % i, 'address': c.addr[0], 'port': c.addr[1]}
+        clients.append(c)
+    results = {}
+    barrier = threading.Barrier(n)
+
+    def client(i):
+        me = clients[i]
+        rec = {'client': 'C%02d' % i, 'aborted': False, 'error': '', 'negotiated': [], 'requests': [], 'extras': [],
+               'pdus': {'maxClient': 0, 'maxServer': 0, 'fromServer': [], 'fromClient': []}}
+        results[i] = rec
+        try:
+            with me.request_association({'aet': 'SRV', 'address': ADDR[0], 'port': ADDR[1]}) as assoc:
+                svc = assoc.get_scu(COMMIT)
+                try:
+                    barrier.wait(60)
+                except threading.BrokenBarrierError:
+                    pass
+                for k in range(2):
+                    uids = [(CT, '1.2.3.%d.%d.%d' % (i + 1, rnd, 10 * k + j)) for j in range(2)]
+                    st = svc('1.2.3.999.%d.%d.%d' % (i + 1, rnd, k), uids, 30 + k)
+                    if int(st) != 0:
+                        rec['extras'].append('N-ACTION #%d answered with status %#x' % (k + 1, int(st)))
+        except Exception as exc:      # noqa
+            rec['error'] = '%s: %s' % (type(exc).__name__, exc)
+    with R.Net() as net:
+        net.register(ADDR, archive)
+        for c in clients:
+            net.register(c.addr, c)
+        ths = [threading.Thread(target=client, args=(i,), daemon=True) for i in range(n)]
+        for t in ths:
+            t.start()
+        for t in ths:
+            t.join(120)
+        finished = all(not t.is_alive() for t in ths)
+        net.wait_all(60)
+        NETS.append(net)
+    for i, c in enumerate(clients):
+        want = sorted(('1.2.3.999.%d.%d.%d' % (i + 1, rnd, k), [(CT, '1.2.3.%d.%d.%d' % (i + 1, rnd, 10 * k + j)) for j in range(2)]) for k in range(2))
+        if sorted(c.reports) != want and not results[i]['error']:
+            results[i]['extras'].append('commitment reports received by this requester: %r, expected its own two: %r' % (sorted(c.reports), want))
+    return [{'kind': 'assoc', 'a': rec} for _, rec in sorted(results.items())], finished
+
+
 def main(tier='quick'):
     v = Verdict('C20', tier)
     rng = random.Random(seed())
@@ -350,6 +490,20 @@ def rounds(v, plan, rng, tier):
             v.report({'site': 'whole-stack', 'clause': 'round-did-not-finish'}, 'a client thread did not finish within 180 s (round %d, %d clients, tcp=%s)' % (rnd, n, tcp))
         for c in cs:
             c['round'] = rnd
+        cases.extend(cs)
+    for k, conc in enumerate([False, True, True, True] if tier == 'quick' else [False] * 3 + [True] * 30):
+        cs, finished = same_uid_round(4 if not conc else 6, 50 + k, rng, conc)
+        if not finished:
+            v.report({'site': 'whole-stack', 'clause': 'round-did-not-finish'}, 'a client storing under a shared instance UID did not finish within 120 s')
+        for c in cs:
+            c['round'] = 50 + k
+        cases.extend(cs)
+    for k in range(1 if tier == 'quick' else 5):
+        cs, finished = commitment_round(3 if tier == 'quick' else 6, 70 + k, rng)
+        if not finished:
+            v.report({'site': 'whole-stack', 'clause': 'round-did-not-finish'}, 'a storage-commitment requester did not finish within 120 s')
+        for c in cs:
+            c['round'] = 70 + k
         cases.extend(cs)
     for k in range(1 if tier == 'quick' else 6):
         cs, finished = move_round(4 if tier == 'quick' else 8, len(plan) + k, rng)
